@@ -411,7 +411,7 @@ func init() {
 		Level:       "fault_enumeration",
 		Rule:        "case = one PRNG history (transactions with alloc/overwrite/free/flush/checkpoint/rollback/reopen over the configuration lattice) executed on the simulated disk with commit-begin/commit-ok markers; for EVERY I/O boundary of the recorded op log after file creation and for lost-write subsets of the writes pending since the last successful sync (all 2^n for n<=6 (quick) / 8 (thorough); otherwise none, all, each single one dropped, each single one alone, in-order prefixes, PRNG subsets), header write additionally torn at byte cuts (all 85 in thorough, sample in quick): the crash image is opened through the normal open path; oracle = open succeeds, header txid in {last successful commit} or {commit in progress}, newest valid header chosen, contents/root == recorded model state of that txid, lock idle, allocator partition disjoint from live pages, every 7th image: two follow-up transactions + reopen leave untouched live pages intact; distinct = history trace hash; non-trivial = >=2 commits and >10 images",
 		Assumptions: simdiskAssumptions,
-		NumCases:    func(t string) int { return tierN(t, 96, 3000) },
+		NumCases:    func(t string) int { return tierN(t, 96, 480) },
 		Race:        func(t string, i int) bool { return t == "thorough" && i%100 == 0 },
 		CaseTimeout: func(t string) time.Duration { return 15 * time.Minute },
 		Run:         runCrashCase,
